@@ -70,6 +70,10 @@ type ijCase struct {
 	// Tricky: a plain scalar that a generic YAML decoder re-types (octal, float, bool, null, hex): used as a label value
 	// in the sections the injector copies; Prometheus reads it as the string it is written as
 	Tricky string
+	// Anchors: YAML anchors and aliases across sections: a relabel list anchored in the alerting section or in a job and
+	// used by remote_write entries, a scalar anchored in the external labels and used as a remote_write name - the copied
+	// sections must come out with what the aliases stand for, wherever the anchor was defined
+	Anchors bool
 }
 
 func ijAuthYAML(ind, auth, user, secret string) string {
@@ -88,10 +92,17 @@ func ijAuthYAML(ind, auth, user, secret string) string {
 
 func (c *ijCase) yaml() string {
 	var sb strings.Builder
+	var listAnchors []string // anchors of relabel lists defined so far
+	scalarAnchor := false
 	if c.Global {
 		sb.WriteString("global:\n  scrape_interval: 20s\n  scrape_timeout: 5s\n")
 		if c.External {
-			sb.WriteString("  external_labels:\n    replica: r0" + c.ExtValue + "\n")
+			if c.Anchors {
+				sb.WriteString("  external_labels: &ext\n    replica: &rep r0" + c.ExtValue + "\n")
+				scalarAnchor = true
+			} else {
+				sb.WriteString("  external_labels:\n    replica: r0" + c.ExtValue + "\n")
+			}
 			if c.Tricky != "" {
 				sb.WriteString("    oddly: " + c.Tricky + "\n")
 			}
@@ -104,7 +115,12 @@ func (c *ijCase) yaml() string {
 		}
 	}
 	if c.AMAuth != "" {
-		sb.WriteString("alerting:\n  alertmanagers:\n  - scheme: https\n")
+		sb.WriteString("alerting:\n")
+		if c.Anchors {
+			sb.WriteString("  alert_relabel_configs: &amdrop\n  - source_labels: [severity]\n    regex: debug\n    action: drop\n")
+			listAnchors = append(listAnchors, "amdrop")
+		}
+		sb.WriteString("  alertmanagers:\n  - scheme: https\n")
 		sb.WriteString(ijAuthYAML("    ", c.AMAuth, "amuser", c.AMSecret))
 		sb.WriteString("    static_configs:\n    - targets: ['am:9093']\n")
 	}
@@ -134,7 +150,10 @@ func (c *ijCase) yaml() string {
 				sb.WriteString(fmt.Sprintf("    %s: ['%s']\n", kv[0], kv[1]))
 			}
 		}
-		if j.MetricRelabel {
+		if j.MetricRelabel && c.Anchors && len(listAnchors) < 2 {
+			sb.WriteString("  metric_relabel_configs: &mrc" + j.Name + "\n  - source_labels: [__name__]\n    regex: go_.*\n    action: drop\n")
+			listAnchors = append(listAnchors, "mrc"+j.Name)
+		} else if j.MetricRelabel {
 			sb.WriteString("  metric_relabel_configs:\n  - source_labels: [__name__]\n    regex: go_.*\n    action: drop\n")
 		}
 		if j.Relabel {
@@ -165,8 +184,16 @@ func (c *ijCase) yaml() string {
 			return
 		}
 		sb.WriteString(key + ":\n")
-		for _, r := range rs {
+		for k, r := range rs {
 			sb.WriteString("- url: " + r.URL + "\n")
+			if c.Anchors && key == "remote_write" {
+				if k == 0 && scalarAnchor {
+					sb.WriteString("  name: *rep\n")
+				}
+				if len(listAnchors) > 0 {
+					sb.WriteString("  write_relabel_configs: *" + listAnchors[k%len(listAnchors)] + "\n")
+				}
+			}
 			sb.WriteString(ijAuthYAML("  ", r.Auth, r.User, r.Secret))
 		}
 	}
@@ -438,6 +465,7 @@ func globalPart(text string) string {
 func injectGen(r *rand.Rand, idx int, thorough bool) interface{} {
 	c := injectGen1(r, idx, thorough)
 	c.TargetsFirst = idx%3 == 1
+	c.Anchors = idx%5 == 2
 	c.Tricky = []string{"", "0755", "1.10", "yes", "1e3", "0x1F", "~", "007", "+1", "on", "2021-01-01", "", "0o17", "1_000", ".5", "No"}[idx%16]
 	// history before: fresh configurations, or near-copies of the final one that differ only in the external labels,
 	// in one secret outside the jobs, or in the assignment
